@@ -127,6 +127,19 @@ func testC03Cases(t *testing.T) {
 		if !ixFirst {
 			mk()
 		}
+		if n > 0 && rapid.IntRange(0, 2).Draw(rt, "replace-first") == 0 {
+			// some documents are rewritten one by one first (ReplaceById / Save hand clover a new
+			// document object): the bulk operation must select by their current values
+			for k := rapid.IntRange(1, 3).Draw(rt, "nreplace"); k > 0; k-- {
+				i := rapid.IntRange(0, n-1).Draw(rt, "replace-i")
+				nd := cs.Doc{"_id": sm.GenId(i), "u": int64(i), "x": int64(rapid.IntRange(-1, mod).Draw(rt, "replace-x")), "y": int64(rapid.IntRange(0, 6).Draw(rt, "replace-y")), "n": map[string]interface{}{"a": int64(k)}}
+				if rapid.Bool().Draw(rt, "replace-save") {
+					do(cs.Op{Kind: "save", Coll: "A", Docs: []cs.Doc{nd}})
+				} else {
+					do(cs.Op{Kind: "replace", Coll: "A", Id: &cs.IdRef{Lit: sm.GenId(i)}, Docs: []cs.Doc{nd}})
+				}
+			}
+		}
 		// the query
 		q := &cs.Query{Coll: "A"}
 		lit := func(v int) *cs.Operand { o := cs.Lit(int64(v)); return &o }
